@@ -141,6 +141,8 @@ class TextFlow:
                     if "T" in base and "L" not in base:
                         self._op(f, e, "substring-edit", "slice %s" % unparse(e)[:40], base)
                         return base | {"E:" + f.qualname}
+                    if "T" in base and "L" in base and e.slice.lower is None and e.slice.upper is None and e.slice.step is None:
+                        return base  # `parts[:]` is a copy of the whole list
                     if "T" in base and "L" in base:
                         # a sub-range of the list of components: the components outside it are left behind
                         self._op(f, e, "component-range", "slice %s" % unparse(e)[:40], base)
